@@ -354,6 +354,42 @@ def lp_of_py(p):
     return lp_enc([F(c) for c in list(p.coefs)], int(p.dmin))
 
 
+_TWO_PI = [None]
+
+
+def two_pi_fraction(bits=420):
+    """2*pi as a rational, |error| < 2^-bits (Machin: pi = 16 atan(1/5) - 4 atan(1/239), alternating series in exact arithmetic)"""
+    if _TWO_PI[0] is None:
+        def atan_inv(q):
+            x, tot, k = Fraction(1, q), Fraction(0), 0
+            term = x
+            while abs(term) > Fraction(1, 2 ** (bits + 8)):
+                tot += term / (2 * k + 1) * (-1 if k % 2 else 1)
+                k += 1
+                term = term * x * x
+            return tot
+        _TWO_PI[0] = 2 * (16 * atan_inv(5) - 4 * atan_inv(239))
+    return _TWO_PI[0]
+
+
+def redphase(x):
+    """a phase far from the origin, brought back by a whole number of turns before it is handed to the model (whose Taylor
+    enclosures are built for moderate arguments): x - k*2pi~, rounded to 2^-200.  e^{i x} is unchanged by the exact shift;
+    the rational 2pi~ is within 2^-420 of 2pi and |k| < 2^60, so the phase handed over is within 2^-199 of an exact
+    representative - callers add (n+1)*2^-150 to their comparison tolerance for it.  Phases up to 40 in modulus pass through
+    unchanged (exact)."""
+    x = Fraction(x)
+    if abs(x) <= 40:
+        return x
+    tp = two_pi_fraction()
+    k = round(x / tp)
+    r = x - k * tp
+    return Fraction(round(r * 2 ** 200), 2 ** 200)
+
+
+REDUCTION_SLACK = Fraction(1, 2 ** 150)
+
+
 def lp_dec(s):
     z, d, cs = s.split("|")
     return {"iszero": z == "1", "dmin": int(d), "coefs": pl(cs)}
